@@ -25,6 +25,8 @@ fn tokens() -> Vec<(&'static str, Tk)> {
         ("[h]", Elapsed), ("[mm]", Elapsed), ("[ss]", Elapsed), ("[H]", Elapsed),
         ("\"d\"", Plain), ("\"x\"", Plain), ("\"m s\"", Plain), ("\"d_\"", Plain), ("\"y\\\"", Plain),
         ("\\d", Plain), ("\\ ", Plain), ("\\-", Plain), ("_d", Plain), ("_)", Plain),
+        // an escaped escape character: the pair is one literal, what follows is a token again
+        ("\\\\", Plain), ("__", Plain), ("\\_", Plain), ("_\\", Plain),
         ("[Red]", Plain), ("[Color3]", Plain), ("[>100]", Plain), ("[<=0]", Plain), ("[$-409]", Plain), ("[$\u{20ac}-407]", Plain), ("[$USD]", Plain), ("[Magenta]", Plain),
         ("/", Plain), (":", Plain), ("-", Plain), (" ", Plain), (";", Sep),
     ]
@@ -81,10 +83,12 @@ fn classifier_sweep(rep: &Report, maxlen: usize) {
     };
     let mut l0 = [0u64; 3];
     run(&[], &mut l0);
-    firsts.par_iter().for_each(|a| {
-        crate::engine::crumb::set_case(&format!("C10 classifier sweep, first token {:?}", tk[*a].0));
+    { let mut o = outcomes.lock().unwrap(); for a in &firsts { let mut local = [0u64; 3]; run(&[tk[*a]], &mut local); for i in 0..3 { o[i] += local[i]; } } }
+    let pairs: Vec<(usize, usize)> = if maxlen >= 2 { firsts.iter().flat_map(|a| firsts.iter().map(move |b| (*a, *b))).collect() } else { vec![] };
+    pairs.par_iter().for_each(|(a, b)| {
+        crate::engine::crumb::set_case(&format!("C10 classifier sweep, first tokens {:?} {:?}", tk[*a].0, tk[*b].0));
         let mut local = [0u64; 3];
-        let mut seq = vec![tk[*a]];
+        let mut seq = vec![tk[*a], tk[*b]];
         fn rec(seq: &mut Vec<(&'static str, Tk)>, tk: &[(&'static str, Tk)], maxlen: usize, run: &dyn Fn(&[(&'static str, Tk)], &mut [u64; 3]), local: &mut [u64; 3]) {
             run(seq, local);
             if seq.len() == maxlen { return; }
@@ -246,9 +250,9 @@ fn run_case(rep: &Report, ch: &mut Chooser, fmt: &'static str, local: &mut Vec<(
 
 pub fn check(rep: &Report) {
     let t = crate::thorough(&rep.tier);
-    rep.rule("(a) every sequence of <= 3 (thorough 4) tokens over a 52-token alphabet of the number-format grammar (digit placeholders, General/@, date/time tokens in both cases, AM/PM, elapsed [h] [mm] [ss], quoted literals incl. ones ending in _ or \\, backslash and underscore escapes, colour/condition/locale/currency brackets, separators, ';') through the real classifier vs a token-level reference (sequences mixing General/@ with date tokens or using an elapsed token after a date token are outside the grammar and skipped); all built-in ids 0-22, 37-49; (b) full product of 14 style kinds x 5 values x 1900/1904 x XF position x style index out of range x every number encoding (xlsx untyped/t=n/formula; xls NUMBER/RK forms/MULRK/FORMULA; xlsb Real/RK forms/FmlaNum) x prefix, end to end; non-trivial = non-default choice / non-empty sequence");
+    rep.rule("(a) every sequence of <= 3 (thorough 5) tokens over a 56-token alphabet of the number-format grammar (digit placeholders, General/@, date/time tokens in both cases, AM/PM, elapsed [h] [mm] [ss], quoted literals incl. ones ending in _ or \\, backslash and underscore escapes, colour/condition/locale/currency brackets, separators, ';') through the real classifier vs a token-level reference (sequences mixing General/@ with date tokens or using an elapsed token after a date token are outside the grammar and skipped); all built-in ids 0-22, 37-49; (b) full product of 14 style kinds x 5 values x 1900/1904 x XF position x style index out of range x every number encoding (xlsx untyped/t=n/formula; xls NUMBER/RK forms/MULRK/FORMULA; xlsb Real/RK forms/FmlaNum) x prefix, end to end; non-trivial = non-default choice / non-empty sequence");
     rep.assume("locale-dependent built-in ids (23-36, 50-58) are not asserted; an integer-valued RK int with a non-date style may read as Int");
-    classifier_sweep(rep, if t { 4 } else { 3 });
+    classifier_sweep(rep, if t { 5 } else { 3 });
     let stats = Mutex::new(Stats::default());
     ["xlsx", "xls", "xlsb"].par_iter().for_each(|fmt| {
         crate::engine::crumb::set_job(&format!("C10 file-level format={fmt}"));
